@@ -235,7 +235,7 @@ def jobs(tier, seed):
         for fname, fopts in flag_shards(tier):
             js.append(Job("run.%s%s" % (name, fname), "props.c14:h_summary_run",
                           {"shapes": shapes, "opts": dict(fopts, **xo)},
-                          reach=REACH[:4], min_paths=5, cost=5000, validate=100 if tier == "quick" else 300))
+                          reach=REACH[:4], min_paths=1 if fopts.get("dry_run") is True else 5, cost=5000, validate=100 if tier == "quick" else 300))
     js.append(Job("run.untested-outline", "props.c14:h_summary_run",
                   {"shapes": [F([S(1), O(1, [(2, [])])]), F([O(1, [(1, [])]), S(1)])],
                    "opts": {"stop": "sym", "out_dom": {"*": [0, 2]}}},
